@@ -73,7 +73,7 @@ FindMethod(cls, c, m) ==
 
 RECURSIVE E(_, _), EArgs(_, _, _, _), X(_, _), XB(_, _, _), CallFun(_, _, _, _), BindParams(_, _, _, _, _), Construct(_, _, _, _),
           InitParents(_, _, _, _, _), InitFields(_, _, _, _, _), ForLoop(_, _, _, _, _), WhileLoop(_, _, _), MatchArms(_, _, _, _), HandleArms(_, _, _, _, _),
-          LastValue(_, _), XBV(_, _, _)
+          LastValue(_, _), XBV(_, _, _), IterVals(_, _), Conds(_, _, _), BuildLoop(_, _, _, _, _)
 
 \* evaluate a sequence of expressions left to right; result state has v = TupV(values)
 EArgs(es, j, acc, s) ==
@@ -141,6 +141,11 @@ E(e, s) ==
                                      ELSE IF parts[j].k = "str" THEN <<F[j-1][1] \o parts[j].s, F[j-1][2]>>
                                      ELSE <<F[j-1][1] \o Show(a.v.v[F[j-1][2] + 1]), F[j-1][2] + 1>> IN
                                Val(a, StrV(F[Len(parts)][1]))
+      [] e.k = "listb" -> LET l == IterVals(e.it, s) IN IF ~Running(l) THEN l
+                          ELSE LET r == BuildLoop(e, l.v.v, 1, <<>>, l) IN
+                               IF ~Running(r) THEN r
+                               ELSE IF s.inf THEN [r EXCEPT !.l = IF e.n \in DOMAIN s.l THEN Put(r.l, e.n, s.l[e.n]) ELSE [x \in DOMAIN r.l \ {e.n} |-> r.l[x]]]
+                               ELSE [r EXCEPT !.g = IF e.n \in DOMAIN s.g THEN Put(r.g, e.n, s.g[e.n]) ELSE [x \in DOMAIN r.g \ {e.n} |-> r.g[x]]]
       [] e.k = "lam"   -> Val(s, FunV([k |-> "fun", n |-> "<lambda>", ps |-> e.ps, ret |-> "<value>", raises |-> <<>>, b |-> <<Expr(e.e)>>,
                                            env |-> IF s.inf THEN s.l ELSE EmptyEnv]))
       [] e.k = "call" /\ e.f \notin DOMAIN s.fns /\ Bound(s, e.f) ->          \* a variable or parameter that holds a function value
@@ -246,6 +251,31 @@ RangeSeq(a, b, incl, step) ==      \* the integers a range visits (bounded by co
                           THEN a + i * step ELSE 1000000
         n == CHOOSE n \in 0..64 : F[n] = 1000000 /\ \A m \in 0..n-1 : F[m] # 1000000 IN
     [i \in 1..n |-> IntV(F[i - 1])]
+
+\* the values an iterable yields (a range or a list / tuple value): v = ListV(values)
+IterVals(it, s) ==
+    IF it.k = "range" THEN
+        LET a == E(it.a, s) IN IF ~Running(a) THEN a ELSE
+        LET b == E(it.b, a) IN IF ~Running(b) THEN b ELSE
+        LET c == IF it.step.k = "absent" THEN Val(b, IntV(1)) ELSE E(it.step, b) IN IF ~Running(c) THEN c
+        ELSE IF a.v.t # "int" \/ b.v.t # "int" \/ c.v.t # "int" THEN Bad(c, "wrong:TypeError")
+        ELSE IF c.v.v = 0 THEN [c EXCEPT !.st = "exc", !.v = StrV("ValueError")]
+        ELSE Val(c, ListV(RangeSeq(a.v.v, b.v.v, it.incl, c.v.v)))
+    ELSE LET l == E(it, s) IN IF ~Running(l) THEN l ELSE IF l.v.t \notin {"list", "tup"} THEN Bad(l, "wrong:TypeError") ELSE Val(l, ListV(l.v.v))
+\* the conditions of a builder hold (evaluated left to right, the first false one ends the evaluation): v = BoolV
+Conds(cs, j, s) ==
+    IF j > Len(cs) THEN Val(s, BoolV(TRUE))
+    ELSE LET r == E(cs[j], s) IN
+         IF ~Running(r) THEN r ELSE IF r.v.t # "bool" THEN Bad(r, "wrong:TypeError") ELSE IF r.v.v THEN Conds(cs, j + 1, r) ELSE r
+\* list builder b over the values vals: for each value bind the variable, keep the element if all conditions hold
+BuildLoop(b, vals, j, acc, s) ==
+    IF j > Len(vals) THEN Val(s, ListV(acc))
+    ELSE IF s.fuel = 0 THEN Bad(s, "fuel")
+    ELSE LET s1 == Bind([s EXCEPT !.fuel = s.fuel - 1], b.n, vals[j])
+             c == Conds(b.cs, 1, s1) IN
+         IF ~Running(c) THEN c
+         ELSE IF ~c.v.v THEN BuildLoop(b, vals, j + 1, acc, c)
+         ELSE LET x == E(b.e, c) IN IF ~Running(x) THEN x ELSE BuildLoop(b, vals, j + 1, Append(acc, x.v), x)
 
 ForLoop(n, vals, j, body, s) ==
     IF j > Len(vals) \/ ~Running(s) THEN s
